@@ -9,6 +9,8 @@ for f in *.tla; do
   if echo "$out" | grep -q -i "error"; then echo "SANY failed on $f"; echo "$out" | tail -20; rc=2; fi
 done
 rm -rf "$jt"
+# every harness module must at least compile
+/venv/bin/python -m py_compile ../check ../harness/*.py ../harness/props/*.py ../harness/drivers/*.py || rc=2
 # the generated constant tables must be what the generator produces
 tmp=$(mktemp); python3 ../harness/gen_tables.py "$tmp" && cmp -s "$tmp" Tables.tla || { echo "spec/Tables.tla differs from harness/gen_tables.py output"; rc=2; }; rm -f "$tmp"
 exit $rc
